@@ -50,6 +50,7 @@ Dead == [live |-> FALSE, impl |-> <<>>, cv |-> <<>>, bound |-> FALSE, cb |-> FAL
 \* ------------------------------------------------------------------ universes
 Items == IF Big THEN {TCookie, Tcookie, TCOOKIE, TAccept} ELSE {TCookie, Tcookie, TAccept}
 SetOps == {[op |-> o, x |-> x] : o \in {"add", "remove", "discard"}, x \in Items} \cup {[op |-> "clear", x |-> <<>>]}
+          \cup {[op |-> "update_self", x |-> <<>>]}
 WATypes == {Tbasic, Tdigest}
 WAKeys == {Trealm}
 WAVals == IF Big THEN {Some(Tx), Some(Tab), Some(<<>>), None} ELSE {Some(<<>>), None}
@@ -57,6 +58,9 @@ WAOps == {[op |-> "set_type", x |-> x, y |-> None] : x \in WATypes}
          \cup {[op |-> "set_token", x |-> <<>>, y |-> y] : y \in (IF Big THEN {None, Some(Ttok), Some(<<>>)} ELSE {None, Some(<<>>)})}
          \cup {[op |-> o, x |-> k, y |-> y] : o \in (IF Big THEN {"setitem", "setattr"} ELSE {"setitem"}), k \in WAKeys, y \in WAVals}
          \cup {[op |-> "delitem", x |-> k, y |-> None] : k \in WAKeys}
+         \* p = w.parameters; (p[k] = v;) w.parameters = p  -- the assigned dict is the one the view holds
+         \cup {[op |-> "alias_params", tag |-> "", x |-> <<>>, y |-> None]}
+         \cup (IF Big THEN {[op |-> "alias_params", tag |-> "mut", x |-> k, y |-> Some(Tx)] : k \in WAKeys} ELSE {})
 CCTags == IF Big THEN {"max_age", "no_cache", "public"} ELSE {"max_age", "public"}
 \* 0 and the empty string are values, not "unset"
 CCVals == {TV("none", 0, <<>>), TV("true", 0, <<>>), TV("int", 0, <<>>), TV("str", 0, TXY), TV("str", 0, <<>>)}
@@ -87,11 +91,17 @@ SetImpl(o, m) ==
          ELSE LET idx == FirstIdx(m.hs, IF Variant = "orig" THEN o.x ELSE key) IN
               I([hs |-> IF idx = 0 THEN m.hs ELSE RemoveAt(m.hs, idx), ls |-> m.ls \ {key}], "", TRUE)
     [] o.op = "clear" -> I([hs |-> <<>>, ls |-> {}], "", TRUE)
+    [] o.op = "update_self" -> I(m, "", FALSE)                  \* hs.update(hs): nothing is inserted
 WAItem(m, k, y) == [m EXCEPT !.ps = IF y = None THEN DDel(m.ps, k) ELSE DPut(m.ps, k, y)]
 WAImpl(o, m) ==
   CASE o.op = "set_type"  -> IF Variant = "orig" THEN I(WAItem(m, Ttype, Some(o.x)), "", TRUE) ELSE I([m EXCEPT !.ty = o.x], "", TRUE)
     [] o.op = "set_token" -> IF Variant = "orig" THEN I(WAItem(m, Ttoken, o.y), "", TRUE) ELSE I([m EXCEPT !.tok = o.y], "", TRUE)
     [] o.op \in {"setitem", "setattr"} -> I(WAItem(m, o.x, o.y), "", TRUE)
+    \* the setter builds a new callback dict from the given mapping (a copy): aliasing is harmless.  Variant
+    \* "aliasclear" models a setter that empties the dict it holds before reading the argument.
+    [] o.op = "alias_params" ->
+         LET p == IF o.tag = "mut" THEN DPut(m.ps, o.x, o.y) ELSE m.ps IN
+         I([m EXCEPT !.ps = IF Variant = "aliasclear" THEN <<>> ELSE p], "", TRUE)
     [] o.op = "delitem" -> IF DHas(m.ps, o.x) THEN I([m EXCEPT !.ps = DDel(m.ps, o.x)], "", TRUE) ELSE I(m, "", FALSE)
 Pop(m, k) == IF DHas(m, k) THEN I(DDel(m, k), "", TRUE) ELSE I(m, "", FALSE)
 CCImpl(o, m) ==
@@ -110,7 +120,8 @@ Notify(m) == IF ImplEmpty(m) THEN None ELSE Some(ImplText(m))
 
 \* the contract's step on the abstract value
 ModelApply(o, v) ==
-  CASE K = "set" -> SetApply(o.op, o, v)
+  CASE o.op \in SelfOps -> AliasApply(K, o.op, o, v)
+    [] K = "set" -> SetApply(o.op, o, v)
     [] K = "wa"  -> WAStep(o.op, o, v)
     [] K = "cc"  -> IF o.op = "cc_set" THEN CCSet(o.tag, o.tv, v) ELSE R(DDel(v, CCDir[o.tag].key), "")
 
@@ -155,8 +166,19 @@ AssignObj(i, v, tag) ==
   /\ act' = [k |-> K, op |-> "assign", tag |-> tag, vw |-> i, hdr |-> hdr', exc |-> ""]
              @@ (IF K = "wa" THEN [w |-> v] ELSE [xs |-> v])
 
+\* response.<property> = the object a live slot holds (the view read earlier, maybe stale; a kept object): the
+\* assignment takes its value; www_authenticate (re)binds the object
+AssignAlias(i) ==
+  /\ K \in {"set", "wa"} /\ views[i].live
+  /\ LET v == Proj(views[i].impl) IN
+     /\ hdr' = Written(K, v, None)
+     /\ hv' = IF Empty(K, v) THEN EmptyValue ELSE NF(K, v)
+  /\ views' = IF K = "wa" THEN [views EXCEPT ![i] = [@ EXCEPT !.bound = (Variant # "nobind"), !.cb = TRUE]] ELSE views
+  /\ act' = [k |-> K, op |-> "assign", tag |-> "alias", vw |-> 0, n |-> i, hdr |-> hdr', exc |-> ""]
+
 AssignSlots == IF Big THEN Slots ELSE {2}
 Next == \/ \E i \in Slots : GetView(i)
+        \/ \E i \in Slots : AssignAlias(i)
         \/ \E i \in AssignSlots, v \in AssignVals : AssignObj(i, v, IF K = "wa" THEN "value" ELSE "list")
         \/ \E i \in AssignSlots, v \in AssignVals : K = "wa" /\ AssignObj(i, v, "list")
         \/ \E i \in Slots, o \in Ops : Mutate(i, o)
@@ -184,6 +206,9 @@ ARereadEqualsView ==
      => (IF hdr' = None THEN EmptyValue ELSE hv') = NF(K, views'[act'.vw].cv)
 AHeaderIffNonEmpty == (K \in {"set", "cc"} /\ Live /\ act'.cexc = "" /\ views'[act'.vw].cv # views[act'.vw].cv)
                          => ((hdr' = None) <=> (views'[act'.vw].cv = <<>>))
+\* an assignment of a slot's object takes the value the contract gives that object
+AAssignTakesValue == (act'.op = "assign" /\ act'.tag = "alias") => hdr' = Written(K, views[act'.n].cv, None)
+AssignTakesValue == [][AAssignTakesValue]_vars
 ViewValue == [][AViewValue]_vars
 OpOutcome == [][AOpOutcome]_vars
 HeaderEqualsView == [][AHeaderEqualsView]_vars
